@@ -108,7 +108,8 @@ def c08(tier, seed):
 
 def c13(tier, seed):
     fams = [dsl_family('styles', 1), dsl_family('corrupt', 1)] + ([dsl_family('styles', 2)] if tier == 'thorough' else [])
-    return combine(fams, ['styled', 'rejected'],
+    fams.append(cli_family(tier))     # LF / CRLF / CR / no final newline through the cgt-tool binary's own file reader
+    return combine(fams, ['styled', 'rejected', 'partitions'],
                    'every command with every combination of optional clause and currency (444 transactions, every spelling with '
                    'GBP left out / a zero clause spelt out) rendered in a three-line file under every lexical style varied alone '
                    '(thorough: all pairs): keyword/currency/ticker case, gaps, trailing comments (spaced, tight, containing '
@@ -126,6 +127,21 @@ def c14(tier, seed):
 
 
 def c15(tier, seed):
+    r = _c15(tier, seed)
+    # the MCP tools are entry points too: a tool call that is never answered (its task died) is a crash
+    m = mcp_check(tier, seed)
+    for f in m['findings']:
+        if f['prop'] == 'C20' and f['kind'] == 'unanswered':
+            g = dict(f)
+            g['prop'], g['kind'] = 'C15', 'mcp_tool_never_returns'
+            r['findings'].append(g)
+    r['coverage']['mcp_sessions'] = m['coverage'].get('sessions', 0)
+    r['coverage']['states'] += m['coverage']['states']
+    r['coverage']['transitions'] += m['coverage']['transitions']
+    return r
+
+
+def _c15(tier, seed):
     return combine([cli_family(tier), misc_family(), dsl_family('corrupt', 1)], ['failing_scenarios', 'invalid_classes', 'hostile_cases'],
                    'every command / format / output-option combination of the Cli.tla step machine with every fault placement '
                    '(missing input, bad rates folder, parse error, uncovered sale, missing exemption, missing rate, absurd year, '
